@@ -1,6 +1,7 @@
 import McpModel.Wire.Sse
 import McpModel.Wire.Result
 import McpModel.Wire.Input
+import McpModel.Wire.Ndjson
 /-!
 # E2 Wire — the typed core of the property monitors of the four streams (msg, mcp, ids, batch)
 
@@ -228,6 +229,7 @@ inductive Clause where
   | lost (n q : Nat)
   | rejectedF2_19 | rejected19 | rejectedF2_02 | rejected02
   | dtWrite | badFrame | writtenDiffers
+  | dtNdReader (c : Crash) | ndNotValueByValue
   | writePanic02 | flushedEarly | notOnItsOwn | arrayNotExact | withheld (hasNotif : Bool) | lastOnItsOwn
   -- frames through the other readers
   | dtReadBatch (raw : JVal) | rbAcceptedEmpty (raw : JVal)
@@ -816,6 +818,27 @@ def Verd.selectWrite (v : Verd) (pid : Pid) : Option Clause :=
   match pid with
   | .c02 => v.v02
   | _ => v.v19
+
+/-! ## the byte stream of an io connection through its reader goroutine -/
+
+inductive NdObs where
+  | crash (c : Crash)
+  | read (vals : List Bytes) (fin : StreamEnd)
+  | garbled
+deriving DecidableEq, Repr, Inhabited
+
+/-- `nd.split`: values (objects / arrays) each followed by a separator, through the reader of `newIOConn`.  Where
+every value is `framed` and every separator is white space beginning with LF or CR (`lineSep`: what `ioConn.Write`
+and every line-oriented peer put there), the reader hands on exactly those values, in order, up to the end. -/
+def ndSplitMonitor (l : List (Bytes × Bytes)) (o : NdObs) : Option Clause :=
+  match o with
+  | .crash c => some (.dtNdReader c)
+  | o =>
+    if l.all (fun q => framed q.1 && lineSep q.2) then
+      match o with
+      | .read vals fin => if vals = l.map (·.1) && fin = .eof then none else some .ndNotValueByValue
+      | _ => some .badObservation
+    else none
 
 /-! ## frames through the other readers -/
 
